@@ -29,10 +29,10 @@ var reviewedMapRanges = map[string][]string{
 	// single-entry package map (one replacement pair); keys cannot overlap
 	"codegen.SnakeCase#toLower": {"assignment of an element-dependent value to name (last or first match wins)"},
 	// import lists: their order is erased by finalizeGoSource (ast.SortImports + imports.Process)
-	"codegen.safelyGetMetaTypeImports#uniqueImports":            {"slice imports is filled in map order and not sorted afterwards"},
-	"codegen/service.ConvertFile#ppm":                           {"slice pkgs is filled in map order and not sorted afterwards"},
-	"codegen/service.Data.initUserTypeImports#importsByPath":    {"slice imports is filled in map order and not sorted afterwards"},
-	"codegen/service.Data.initUserTypeImports#m.ErrorLocs":      {"call with unknown effects: goa.design/goa/v3/codegen/service.initLoc"}, // stores into a map keyed by path
+	"codegen.safelyGetMetaTypeImports#uniqueImports":         {"slice imports is filled in map order and not sorted afterwards"},
+	"codegen/service.ConvertFile#ppm":                        {"slice pkgs is filled in map order and not sorted afterwards"},
+	"codegen/service.Data.initUserTypeImports#importsByPath": {"slice imports is filled in map order and not sorted afterwards"},
+	"codegen/service.Data.initUserTypeImports#m.ErrorLocs":   {"call with unknown effects: goa.design/goa/v3/codegen/service.initLoc"}, // stores into a map keyed by path
 	// error text only: which pair of a dependency cycle is named
 	"eval.DSLContext.Roots#rootDeps": {"call with unknown effects: (goa.design/goa/v3/eval.Expression).EvalName", `returns a value that depends on the element visited: fmt.Errorf("dependency cycle: %s and %s depend on each other (directly or not)", root.EvalName(), other.EvalName())`},
 	// debug printer, not reachable from Generate
@@ -42,12 +42,12 @@ var reviewedMapRanges = map[string][]string{
 	// deletes attributes by name from the body object: commutative
 	"expr.httpRequestBody#defaultRequestHeaderAttributes(a)": {"call with unknown effects: goa.design/goa/v3/expr.removeAttribute"},
 	// map-to-map copies through helper calls
-	"http/codegen/openapi.Schema.Dup#s.Properties":              {"call with unknown effects: (*goa.design/goa/v3/http/codegen/openapi.Schema).Dup"},
-	"http/codegen/openapi.Schema.Dup#s.Definitions":             {"call with unknown effects: (*goa.design/goa/v3/http/codegen/openapi.Schema).Dup"},
-	"http/codegen/openapi.ToStringMap#actual":                   {"call with unknown effects: goa.design/goa/v3/http/codegen/openapi.ToStringMap", "call with unknown effects: goa.design/goa/v3/http/codegen/openapi.ToString"},
-	"http/codegen/openapi/v3.toStringMap#actual":                {"call with unknown effects: goa.design/goa/v3/http/codegen/openapi/v3.toStringMap", "call with unknown effects: goa.design/goa/v3/http/codegen/openapi/v3.toString"},
-	"http/codegen/openapi.extensionsFromExprWithPrefix#mdata":   {"call with unknown effects: encoding/json.Unmarshal"},
-	"http/codegen/openapi.propertiesFromDefs#definitions":       {"call with unknown effects: goa.design/goa/v3/http/codegen/openapi.NewSchema"},
+	"http/codegen/openapi.Schema.Dup#s.Properties":            {"call with unknown effects: (*goa.design/goa/v3/http/codegen/openapi.Schema).Dup"},
+	"http/codegen/openapi.Schema.Dup#s.Definitions":           {"call with unknown effects: (*goa.design/goa/v3/http/codegen/openapi.Schema).Dup"},
+	"http/codegen/openapi.ToStringMap#actual":                 {"call with unknown effects: goa.design/goa/v3/http/codegen/openapi.ToStringMap", "call with unknown effects: goa.design/goa/v3/http/codegen/openapi.ToString"},
+	"http/codegen/openapi/v3.toStringMap#actual":              {"call with unknown effects: goa.design/goa/v3/http/codegen/openapi/v3.toStringMap", "call with unknown effects: goa.design/goa/v3/http/codegen/openapi/v3.toString"},
+	"http/codegen/openapi.extensionsFromExprWithPrefix#mdata": {"call with unknown effects: encoding/json.Unmarshal"},
+	"http/codegen/openapi.propertiesFromDefs#definitions":     {"call with unknown effects: goa.design/goa/v3/http/codegen/openapi.NewSchema"},
 }
 
 func runC09(c *an.Ctx) string {
@@ -434,6 +434,18 @@ func r095Cleanup(c *an.Ctx) {
 					}
 					if v && appended {
 						collected = true
+						// the entry is joined to the directory that was listed
+						opened := ""
+						for _, cl := range p.CallEffects() {
+							if strings.HasPrefix(cl, "os.Open(") {
+								opened = balancedArg(cl[len("os.Open"):])
+							}
+						}
+						for _, cl := range p.CallEffects() {
+							if strings.HasPrefix(cl, "append(") && strings.Contains(cl, ".Name()") && opened != "" && !strings.Contains(cl, "path/filepath.Join(["+opened+", ") {
+								probs = append(probs, "the sub-directory entry is not joined to the directory that was listed ("+opened+"): the returned path names a different directory whenever the output directory is not the working directory")
+							}
+						}
 					}
 					if !v && appended {
 						probs = append(probs, "a regular file is collected for removal")
@@ -544,4 +556,21 @@ func r097ErrGates(c *an.Ctx) {
 		}
 	}
 	c.Floor(rule, n, 15, "error results in the write pipeline")
+}
+
+// balancedArg returns the text between the parenthesis s starts with and its match.
+func balancedArg(s string) string {
+	depth := 0
+	for i, r := range s {
+		switch r {
+		case '(', '[':
+			depth++
+		case ')', ']':
+			depth--
+			if depth == 0 {
+				return s[1:i]
+			}
+		}
+	}
+	return ""
 }
